@@ -12,7 +12,7 @@ from mc.universe import worlds as W
 from mc.universe.loc import bridging, dec, enc, simple, u_loc
 
 ID = "C08"
-LEVEL = "exploration"
+LEVEL = "model_checking"
 RULE = ("cases = (topology, L, set of gene locations, query location, with_overlapping); genes: every subset of size <= k of all "
         "intervals of length >= 3 (ring: plus all origin-spanning two-part genes, either strand); queries: all of U_loc(L); "
         "non-trivial = the expected answer is non-empty and not all genes; distinct by construction")
@@ -21,10 +21,10 @@ ASSUMPTIONS = [
     "for origin-spanning queries only set equality, no duplicates, and 'genes wholly before the origin precede genes wholly after it' are demanded",
 ]
 BOUNDS = {
-    "quick": "line L=10 <=3 genes; ring L=8 <=3 genes; ring L=10 <=2 genes; all queries, both flags",
-    "thorough": "line L=12 <=3 genes, L=10 <=4 genes; ring L=9 <=3 genes, L=7 <=4 genes, L=12 <=2 genes",
+    "quick": "line L=9 <=3 genes; ring L=7 <=3 genes; ring L=10 <=2 genes; all queries, both flags; build-order BFS depth 6",
+    "thorough": "line L=12 <=3 genes, L=10 <=4 genes; ring L=9 <=3 genes, L=7 <=4 genes, L=12 <=2 genes; build-order BFS depth 8",
 }
-REQUIRED_BUCKETS = {t: ["lookup:nested-genes", "lookup:identical-start", "lookup:bridging-gene", "lookup:bridging-query",
+REQUIRED_BUCKETS = {t: ["bfs:gene-added-after-regions", "lookup:nested-genes", "lookup:identical-start", "lookup:bridging-gene", "lookup:bridging-query",
                         "lookup:overlapping-differs-from-contained"] for t in ("quick", "thorough")}
 N_CHUNKS = 16
 
@@ -39,10 +39,13 @@ def gene_universe(L, circular):
 
 def shards(tier):
     if tier == "quick":
-        plans = [(False, 10, 3), (True, 8, 3), (True, 10, 2)]
+        plans = [(False, 9, 3), (True, 7, 3), (True, 10, 2)]
     else:
         plans = [(False, 12, 3), (False, 10, 4), (True, 9, 3), (True, 7, 4), (True, 12, 2)]
-    return [["lookup", circ, L, k, chunk] for circ, L, k in plans for chunk in range(N_CHUNKS)]
+    out = [["lookup", circ, L, k, chunk] for circ, L, k in plans for chunk in range(N_CHUNKS)]
+    depth = 6 if tier == "quick" else 8
+    out += [["bfs", False, depth], ["bfs", True, depth]]
+    return out
 
 
 def expected(rec_genes, query, overlapping):
@@ -96,8 +99,16 @@ def check_lookup(L, circular, genes, query, overlapping, built=None):
 
 
 def run_shard(shard):
-    _, circular, L, k, chunk = shard
     res = Result()
+    if shard[0] == "bfs":
+        from mc.props import c06  # pylint: disable=import-outside-toplevel
+        states, transitions = c06.bfs(shard[1], shard[2], res, which="c08")
+        res.extra["states"] = states
+        res.extra["transitions"] = transitions
+        res.extra["traces_validated_against_impl"] = transitions
+        res.outcomes[("bfs", shard[1], states)] += 1
+        return res
+    _, circular, L, k, chunk = shard
     universe = gene_universe(L, circular)
     queries = u_loc(L, (1,), with_bridging=circular)
     index = 0
@@ -141,6 +152,9 @@ def run_shard(shard):
 
 
 def replay(case):
+    if case.get("kind") == "history":
+        from mc.props import c06  # pylint: disable=import-outside-toplevel
+        return c06.check_history(case["circ"], case["hist"], which="c08")
     genes = [dec(g) for g in case["genes"]]
     fails, _ = check_lookup(case["L"], case["circ"], genes, dec(case["q"]), case["ov"])
     return fails
